@@ -19,6 +19,7 @@ import (
 	"verif/harness/gen"
 	"verif/harness/logcap"
 	"verif/harness/mredis"
+	"verif/harness/netx"
 	"verif/harness/ref"
 	"verif/harness/stats"
 )
@@ -107,25 +108,26 @@ func (s *scheduler) run(workers int, open func() int) {
 }
 
 type c07Case struct {
-	file     *gen.File
-	mode     string // sync | restore
-	parallel int
-	targetDB int
-	filt     filterConf
-	policy   string
-	existing map[string]bool // "db/key" present on the target beforehand
-	bigRoute bool
-	schedule []int
-	failKey  string // "db/key": the target answers this key's RESTORE with an error
-	failMsg  string
-	tk       targetKind // target version: decides whether RESTORE ... REPLACE is used (target.replace)
-	slow     bool       // the target holds back its slowAt-th reply for slowFor (default 1.25 s)
-	slowAt   int
-	slowFor  time.Duration
+	file        *gen.File
+	mode        string // sync | restore
+	parallel    int
+	targetDB    int
+	filt        filterConf
+	policy      string
+	existing    map[string]bool // "db/key" present on the target beforehand
+	bigRoute    bool
+	schedule    []int
+	failKey     string // "db/key": the target answers this key's RESTORE with an error
+	failMsg     string
+	tk          targetKind // target version: decides whether RESTORE ... REPLACE is used (target.replace)
+	unreachable bool       // nothing listens at the target address: every worker fails to connect
+	slow        bool       // the target holds back its slowAt-th reply for slowFor (default 1.25 s)
+	slowAt      int
+	slowFor     time.Duration
 }
 
 func (c *c07Case) String() string {
-	return fmt.Sprintf("mode=%s parallel=%d target=%s(replace=%v) target.db=%d key_exists=%s bigRoute=%v filters=%+v records=%d dbs=%d existing=%d failKey=%q failMsg=%q slow=%v/%d", c.mode, c.parallel, c.tk.version, targetReplaceRule(c.tk.version), c.targetDB, c.policy, c.bigRoute, c.filt, len(c.file.Records), c.file.NDBs, len(c.existing), c.failKey, c.failMsg, c.slow, c.slowAt)
+	return fmt.Sprintf("mode=%s parallel=%d target=%s(replace=%v) target.db=%d key_exists=%s bigRoute=%v filters=%+v records=%d dbs=%d existing=%d failKey=%q failMsg=%q slow=%v/%d unreachable=%v", c.mode, c.parallel, c.tk.version, targetReplaceRule(c.tk.version), c.targetDB, c.policy, c.bigRoute, c.filt, len(c.file.Records), c.file.NDBs, len(c.existing), c.failKey, c.failMsg, c.slow, c.slowAt, c.unreachable)
 }
 
 func drawC07(t *rapid.T) *c07Case {
@@ -163,6 +165,9 @@ func drawC07(t *rapid.T) *c07Case {
 	c.schedule = rapid.SliceOfN(rapid.IntRange(0, 7), 1, 24).Draw(t, "schedule")
 	// 5.x: RESTORE ... REPLACE; 6.x: the tool's rule turns REPLACE off, rewrite becomes DEL + RESTORE
 	c.tk = rapid.SampledFrom([]targetKind{targetKinds[3], targetKinds[3], targetKinds[5]}).Draw(t, "target")
+	if rapid.IntRange(0, 59).Draw(t, "unreachableTarget") == 31 {
+		c.unreachable = true
+	}
 	if rapid.IntRange(0, 79).Draw(t, "slowTarget") == 41 { // rare (rapid favours the bounds of a range, so the rare value sits in the middle)
 		c.slow, c.slowAt = true, rapid.IntRange(0, 4).Draw(t, "slowAt")
 	}
@@ -264,16 +269,26 @@ func c07Check(t fataler, c *c07Case) {
 	var res logcap.Result
 	var done <-chan logcap.Result
 	gidCh := make(chan int64, 1)
+	targetAddr := srv.Addr()
+	if c.unreachable {
+		// fault: a port nobody listens on (connection refused for every worker)
+		ln, err := netx.Listen()
+		if err != nil {
+			t.Fatalf("harness: %v", err)
+		}
+		targetAddr = ln.Addr().String()
+		ln.Close()
+	}
 	if c.mode == "sync" {
 		ds := newSyncer(0)
 		done = logcap.Start(func() {
 			gidCh <- logcap.Gid()
-			serr = ds.VerifSyncRDBFile(reader, []string{srv.Addr()}, "auth", tgtSentinel, int64(len(c.file.Bytes)), false)
+			serr = ds.VerifSyncRDBFile(reader, []string{targetAddr}, "auth", tgtSentinel, int64(len(c.file.Bytes)), false)
 		})
 	} else {
 		done = logcap.Start(func() {
 			gidCh <- logcap.Gid()
-			run.VerifRestoreRDBFile(0, reader, []string{srv.Addr()}, "auth", tgtSentinel, int64(len(c.file.Bytes)), false)
+			run.VerifRestoreRDBFile(0, reader, []string{targetAddr}, "auth", tgtSentinel, int64(len(c.file.Bytes)), false)
 		})
 	}
 	gid := <-gidCh
@@ -333,6 +348,14 @@ func c07Check(t fataler, c *c07Case) {
 	failed := serr != nil || !res.Completed
 	if c.failKey != "" {
 		expectFailure = true
+	}
+	if c.unreachable {
+		if !failed {
+			violation(t, "C07", "failure-not-reported:unreachable-target:"+c.mode, "%s: nothing listens at the target address, no key can have been written, yet the run finished as a success", desc)
+			return
+		}
+		stats.C.Case(c.parallel >= 2, stats.HashS(desc+fmt.Sprint(c.schedule)), "mode:"+c.mode, "unreachable-target")
+		return
 	}
 	if expectFailure {
 		if !failed {
